@@ -1260,7 +1260,7 @@ fn main() {
         }
     }
     // 16-bit boundary probes
-    let big_caps: &[usize] = if ctx.thorough() { &[65535, 65536, 65537, 131073] } else { &[65535, 65536, 65537] };
+    let big_caps: &[usize] = if ctx.thorough() { &[512, 1024, 2048, 4096, 44100, 48000, 65535, 65536, 65537, 131073] } else { &[512, 1024, 2048, 4096, 44100, 48000, 65535, 65536, 65537] };
     let jobs: Vec<(&str, usize)> = ["bounded", "fixed"].into_iter().flat_map(|s| big_caps.iter().map(move |&c| (s, c))).collect();
     jobs.par_iter().for_each(|&(sys, cap)| {
         let case = json!({"sys":sys,"kind":"vec","cap":cap,"note":"16-bit boundary run"});
@@ -1272,7 +1272,7 @@ fn main() {
             Err(p) => ctx.violation(&format!("{sys}.panic"), case, format!("{sys} buffer of capacity {cap}, 16-bit boundary run: panicked: {p}"), None),
         }
     });
-    ctx.rule("16-bit boundary probes: capacities 65535, 65536, 65537 (thorough: also 131073), one deterministic run of 5 x capacity + 1000 operations each (fill, over-fill with eviction, drain, alternate; set_first rotations for the fixed buffer): every push / pop return value, len / is_full / is_empty, get and index at 0, 1, len/2, len-1, len, len+1, 65535, 65536, 65537, and every 8191 steps iter / slices / iter_loop against a VecDeque");
+    ctx.rule("16-bit boundary and audio-typical capacities: 512, 1024, 2048, 4096, 44100, 48000, 65535, 65536, 65537 (thorough: also 131073), one deterministic run of 5 x capacity + 1000 operations each (fill, over-fill with eviction, drain, alternate; set_first rotations for the fixed buffer): every push / pop return value, len / is_full / is_empty, get and index at 0, 1, len/2, len-1, len, len+1, 65535, 65536, 65537, and every 8191 steps iter / slices / iter_loop against a VecDeque");
     ctx.rule(&format!("soak probes: one deterministic history of {soak_steps} operations (pushes interleaved with the whole alphabet) per buffer kind and capacity in 1,3,4,7,64 on a single real buffer, same reference queue (single executions, labelled)"));
     ctx.set("exhaustive", json!(true));
     ctx.set("exhaustive_scope", json!(format!("every raw state x every action for capacities 1..={maxcap}; capacities above are not explored")));
